@@ -66,6 +66,10 @@ func (p *planner) analyzeScript() {
 		}
 		next := pipeline[i+1]
 		switch {
+		case ppl.LineFormat != nil:
+			// the stages behind a line_format read the rewritten line: they get a select of their own, whose
+			// samples.string is that line (in the select of the line_format itself there is no such column)
+			p.renewMainAfter[i] = true
 		case ppl.Parser != nil:
 			p.renewMainAfter[i] = next.Parser == nil
 		case ppl.Drop != nil:
